@@ -255,7 +255,7 @@ def run(prog: Program, rep: Report, tier: str = "quick") -> None:
     game.add_instances(rep, game.c10_job, [(i, tier) for i in range(nn)], "R10.5", 14 * nn)
     from . import c12
 
-    game.add_instances(rep, c12.closed_form_job, [(i, tier, "R10.6", ("predict_draw",)) for i in range(nn)], "R10.6", 5 * nn)
+    game.add_instances(rep, c12.closed_form_job, [(i, tier, "R10.6", ("predict_draw",)) for i in range(nn)], "R10.6", 5 * nn, counterpart_only=True)
     rep.arbitrate({"R10.2"}, "R10.6", "predict_draw is the closed form (an average of band probabilities)")
     rep.arbitrate({"R10.1"}, "R10.5", "the value is a symmetric function of the teams and of each team's players")
     rep.supersede({"R10.1"}, "R10.5", "the value is a symmetric function of the teams and of each team's players")
